@@ -155,9 +155,9 @@ class Check(DiffCheck):
                             else:
                                 cs.append('A %d %d %s %s' % (A, am, base, self._op(rng, kd, off, n, mises)))
         aligned_sweep(4, 0, [0, 1, 3, 4, 5, 8, 10, 12, 13] + ([2, 7, 9, 16, 17] if thorough else []), [0], 12, ['R', 'W', 'RV', 'WV'])
-        aligned_sweep(8, 1, [0, 5, 8, 13, 16, 24, 27] + ([1, 7, 9, 17, 32] if thorough else []), [0, 4] + ([1, 8] if thorough else []), 24 if thorough else 17, ['R', 'W', 'RV', 'WV'])
+        aligned_sweep(8, 1, [0, 5, 8, 13, 16, 24, 27] + ([1, 7, 9, 17, 32] if thorough else []), [0, 4] + ([1, 8] if thorough else []), 24 if thorough else 13, ['R', 'W', 'RV', 'WV'])
         aligned_sweep(4, 1, [5, 8], [0, 2], 9, ['R', 'W', 'RV', 'WV'])         # alignment < sizeof(void*): finding F30 (fixed)
-        aligned_sweep(8, 0, [0, 7, 8, 20], [0, 3], 17, ['R', 'W'])
+        aligned_sweep(8, 0, [0, 7, 8, 20], [0, 3], 17 if thorough else 12, ['R', 'W'])
         aligned_sweep(1, 1, [0, 3], [0, 1], 4, ['R', 'W', 'RV', 'WV'])
         aligned_sweep(2, 0, [0, 3, 4], [1], 5, ['R', 'W', 'RV', 'WV'])
         # ---- alignment 512 around multiples
